@@ -14,8 +14,8 @@ import (
 // Used to extract decision/default tables: "assuming raw.NumConn == 0, which stores execute and with which values".
 
 type lat struct {
-	kind int // 0 undefined, 1 constant, 2 overdefined
-	c    constant.Value
+	kind  int // 0 undefined, 1 constant, 2 overdefined
+	c     constant.Value
 	isNil bool
 }
 
@@ -53,9 +53,9 @@ type SCCP struct {
 	AssumeValue map[ssa.Value]constant.Value
 	// AssumeLen: len() of a load of this field
 	AssumeLen map[*types.Var]int64
-	val         map[ssa.Value]lat
-	execBlock   map[*ssa.BasicBlock]bool
-	execEdge    map[[2]*ssa.BasicBlock]bool
+	val       map[ssa.Value]lat
+	execBlock map[*ssa.BasicBlock]bool
+	execEdge  map[[2]*ssa.BasicBlock]bool
 	// interprocedural: P enables descending into in-repo callees; sub holds the callee runs of executable calls
 	P     *Prog
 	sub   map[*ssa.Call]*SCCP
